@@ -7,7 +7,9 @@ R1 LEN-READS-STATE (sibling agreement of next/len): len() is the sum, over the e
    size_hint is (n, Some(n)) of len().
 R2 PARTITION-INVARIANT: next/len stop at the first entry that is empty under the mask, so every
    function that changes entry bitboards or the mask must re-run the partition before returning
-   (next itself only clears bits of the entry at `index`).
+   (next itself only clears bits of the entry at `index`); set_iterator_mask itself runs the partition
+   scan on every path, except under a condition that makes the list trivially partitioned (empty mask,
+   at most one entry).
 R3 REMOVE-SCANS-ALL: remove_move visits every entry (no exit from inside the loop) and clears the
    destination in each entry of the source square; remove_mask intersects every entry with the
    complement of the mask.
@@ -23,7 +25,7 @@ from .. import tables as T
 LEVEL = 'other'
 EXHAUSTIVE = True
 EXPLANATION = ('Sibling agreement and path rules on the MIR of src/movegen/movegen.rs: loop shape and read set of len() vs the '
-               'write set of next(), typestate "partition re-established after the last change" for every mutator, loop-exit '
+               'write set of next(), typestate "partition re-established after the last change" for every mutator, must-pass-through of the partition scan in set_iterator_mask, loop-exit '
                'structure of the removal functions, decision tree and state update of next().')
 NOT_DECIDED = 'that the multiset of yielded moves equals the legal moves (C01); the partition algorithm itself is checked for shape only'
 
